@@ -22,6 +22,19 @@ ScryptLegal(logn, r, p) ==
      IN /\ pp <= 1073741823 \div rr                                         \* r * p < 2^30
         /\ (rr < 4 => logn < 16 * rr)                                       \* N < 2^(128 r / 8)
         /\ (logn >= 27 => (logn <= 57 /\ rr < 2 ^ (57 - logn)))             \* 128 r N must be addressable (64-bit usize)
+\* the Argon2 parameter builder: setters applied in the order given, each may be repeated; the effective value of a parameter is the
+\* last one set (defaults m = 32, p = 1, t = 1, version 0x13); the first refused setter names the error.  Values are 16-bit limb lists.
+NatOfLimbs(a) == a[1] + 65536 * a[2]                       \* only used after the value was checked to be below 2^31
+SetterError(sr) == IF sr.k = "p" THEN (IF LimbsZero(sr.v) THEN 1 ELSE IF ~LimbsLt(sr.v, 16777216) THEN 2 ELSE 0)
+                   ELSE IF sr.k = "t" THEN (IF LimbsZero(sr.v) THEN 3 ELSE 0)
+                   ELSE IF sr.k = "v" THEN (IF LimbsLt(sr.v, 65536) /\ sr.v[1] \in {16, 19} THEN 0 ELSE 4) ELSE 0
+Builder(setters) ==
+  FoldLeft(LAMBDA acc, sr : IF acc.err # 0 THEN acc
+                            ELSE IF SetterError(sr) # 0 THEN [acc EXCEPT !.err = SetterError(sr)]
+                            ELSE IF sr.k = "p" THEN [acc EXCEPT !.p = NatOfLimbs(sr.v)] ELSE IF sr.k = "m" THEN [acc EXCEPT !.m = NatOfLimbs(sr.v)]
+                            ELSE IF sr.k = "t" THEN [acc EXCEPT !.t = NatOfLimbs(sr.v)] ELSE [acc EXCEPT !.ver = sr.v[1]],
+           [err |-> 0, p |-> 1, m |-> 32, t |-> 1, ver |-> 19], setters)
+LE32N(n) == <<n % 256, (n \div 256) % 256, (n \div 65536) % 256, (n \div 16777216) % 256>>
 Apply(e) ==
   CASE e.op = "hkdf_extract" -> IF e.n = HOut(HDof(e)) THEN V(HkdfExtract(HDof(e), e.salt, e.ikm)) ELSE P
     [] e.op = "hkdf_expand" -> IF e.n <= 255 * HOut(HDof(e)) THEN V(HkdfExpand(HDof(e), e.prk, e.info, e.n)) ELSE P
@@ -37,6 +50,16 @@ Apply(e) ==
          ELSE IF e.version \notin {16, 19} THEN [k |-> "p", v |-> <<4>>]
          ELSE IF Has(e, "params_only") THEN N
          ELSE V(Argon2(e.type, e.version, e.t[1], e.m[1], e.p[1], e.pw, e.salt, e.key, e.aad, e.n))
+    [] e.op = "argon2_built" ->          \* tag computed with parameters produced by an arbitrary setter sequence
+         LET b == Builder(e.setters) IN
+         IF b.err # 0 THEN [k |-> "p", v |-> <<b.err>>]
+         ELSE V(Argon2(e.type, b.ver, b.t, b.m, b.p, e.pw, e.salt, e.key, e.aad, e.n))
+    [] e.op = "argon2_geometry" ->       \* (memory blocks, lane length, segment length, memory_kb) after a setter sequence (verification hook)
+         LET b == Builder(e.setters)   g == Geometry(b.m, b.p) IN
+         IF b.err # 0 THEN [k |-> "p", v |-> <<b.err>>] ELSE V(LE32N(g.blocks) \o LE32N(g.lane) \o LE32N(g.seg) \o LE32N(b.m))
+    [] e.op = "argon2_index_alpha" ->    \* the reference index of one position (verification hook); j1 = <<lo16, hi16>>
+         LET b == Builder(e.setters)   g == Geometry(b.m, b.p) IN
+         V(LE32N(RefIndex(g.lane, g.seg, e.pass, e.slice, e.index, e.same = 1, e.j1)))
     [] e.op = "scrypt_params" -> IF ScryptLegal(e.logn, e.r, e.p) THEN N ELSE P
 Init == hi \in 1..Len(Rec) /\ l = 1 /\ st = 0 /\ ok = TRUE /\ res = <<>>
 Step == /\ ok /\ l <= Len(Rec[hi].ev)
